@@ -216,6 +216,33 @@ def c07d(F, R):
         R.bad("loops|missing", f"expected >= 2 token-consuming loops in the decoder, found {len(loops)}")
 
 
+@rule("C07", "C07.g.eof-in-optional-lookahead", floor=20)
+def c07g(F, R):
+    """a successful decode path never depends on a look-ahead read through `?` whose token it then ignores: at end of file that `?` aborts the decode and the complete instruction is dropped"""
+    from .decode import eof_optional
+    ctors = node_ctor_table(F)
+    p, tm, pm = try_from_matches(F)
+    for k, arm in arm_table(tm):
+        if k in ("_", "Pseudo", "Ignore"):
+            continue
+        b = payload_binding(arm, k)
+        try:
+            outs = decode_arm(F, arm["body"], {b or "inst": ("name", "inst")})
+        except Unextractable as ex:
+            R.bad(f"{k}|unextractable", f"UNEXTRACTABLE arm for Type::{k}: {ex}", loc(arm))
+            continue
+        for toks, s in outs:
+            kind, ns = outcome_nodes(s, ctors)
+            if kind not in ("ok", "two"):
+                continue
+            opt, consumed = eof_optional(toks, s)
+            key = f"{k}|{' '.join(t for t in toks if t != '?') or '-'}"
+            if opt:
+                R.bad(key, f"{k}: the form `{' '.join(t for t in toks if t != '?')}` is complete, but the decoder looks one token further with `?`: when the file ends there (no trailing newline) the look-ahead fails with UnexpectedEOF and the instruction is dropped without a diagnostic", loc(arm))
+            else:
+                R.ok(key)
+
+
 @rule("C07", "C07.f.newline-tested-before-consume", floor=3)
 def c07f(F, R):
     """in every lexer loop that is sensitive to the end of line, the newline test comes before a character is consumed (so the newline itself is left for the Newline token)"""
